@@ -91,6 +91,7 @@ struct CowImpl {
     // the deleter holds a reference: write handles cannot be move-assigned, so they are emplaced
     std::vector<std::vector<std::optional<WH>>> ws;  // destroyed before cow
     std::vector<std::vector<SH>> ss;
+    std::list<WH> grave;  // cancelled (null) handles, destroyed with the component
     int nw, ns;
     CowImpl(size_t nthreads, int nw_, int ns_, long init): cow(init), nw(nw_), ns(ns_)
     {
@@ -117,7 +118,14 @@ struct CowImpl {
                 case 5: if (!h) return -1; (*h)->touch(); (*h)->p.incr(); return 0;
                 case 6: if (!h) return -1; (*h)->touch(); return (*h)->p.read();
                 case 7: if (!h) return -1; h.reset(); return 0;
-                case 8: if (!h) return -1; h->cancel(); h.reset(); return 0;
+                case 8:
+                    // cancel(); the (now null) handle object itself stays alive until the end of the case, as a client's
+                    // local variable would: cancel() has to free the outer mutex itself, not leave it to ~handle
+                    if (!h) return -1;
+                    h->cancel();
+                    grave.emplace_back(std::move(*h));
+                    h.reset();
+                    return 0;
                 case 9: {
                     if (!h || b < 0 || b >= nw || b == a || W[(size_t)b]) return -1;
                     W[(size_t)b].emplace(std::move(*h));
